@@ -402,21 +402,12 @@ impl TestRunner {
         let opcode = self.ram.read().unwrap().ram[self.cpu.get_program_counter() as usize];
         match opcode {
             0x20 => {
-                // jsr
-                let wait_until_pc = self.cpu.get_program_counter() + 3;
-                loop {
-                    let result = self.execute_instruction()?;
-
-                    if self.cpu.get_program_counter() == wait_until_pc {
-                        return Ok(result);
-                    }
-
-                    match result {
-                        ExecuteResult::Running => {}
-                        result => {
-                            return Ok(result);
-                        }
-                    }
+                // jsr: step into the subroutine and then out of it again. Waiting for the address behind the
+                // jsr is not enough: a recursive call, or a subroutine that directly follows the call, gets there
+                // before the call has returned.
+                match self.execute_instruction()? {
+                    ExecuteResult::Running => self.step_out(),
+                    result => Ok(result),
                 }
             }
             _ => self.execute_instruction(),
